@@ -581,6 +581,17 @@ func (p *c07) evalCase(x *res, cs c07Case, rr refmodel.RenderOpts, viaClient boo
 		x.r.Counters["oracle_reject"]++
 		if got == "ok" {
 			x.r.Counters["ill_typed_update_accepted"]++ // not a C07 verdict: C07 quantifies over well-formed updates
+			// ... with one exception that is a defect in its own right (listed finding): SET a = b where b does not
+			// exist does not fail like in DynamoDB - it STORES a NULL under a
+			if len(cs.U.Actions) == 1 && cs.U.Actions[0].Kind == "SET" && cs.U.Actions[0].RHS.Kind == "path" && len(cs.U.Actions[0].Path) == 1 {
+				if _, ok := cs.U.Actions[0].RHS.Path.Resolve(base); !ok {
+					exp := base.Clone()
+					exp[cs.U.Actions[0].Path[0].Name] = val.Null()
+					if val.ItemsEqual(after, exp) {
+						x.viol("set-from-missing-attribute-stores-NULL", "SET:path-missing", fmt.Sprintf("Update(%q) on an item without the source attribute succeeds and stores NULL under the target (DynamoDB refuses the update): %s", expr, diffAttrs(after, base)), wit)
+					}
+				}
+			}
 		} else if !val.ItemsEqual(after, base) {
 			x.viol("rejected-update-changed-item", feature, fmt.Sprintf("Update(%q) was rejected (%s) but changed the item: %s", expr, msg, diffAttrs(after, base)), wit)
 		}
